@@ -380,6 +380,7 @@ func c11Culprit(exp *c11Render, actual string) string {
 // ---------------------------------------------------------------------------------------------------
 
 type c11Scan struct {
+	ill    bool // not well-typed against the schema: a typed nil, or a dynamic type outside the registry, in a node-interface position
 	nodes  int
 	dag    bool
 	errs   bool
@@ -411,7 +412,17 @@ func (s *c11Scan) value(v reflect.Value) {
 				s.opaque[strings.ReplaceAll(v.Elem().Type().String(), " ", "")] = true
 			}
 		case c11IfNode:
-			s.value(v.Elem())
+			e := v.Elem()
+			if _, ok := c11RegByName[e.Type().String()]; !ok {
+				s.ill = true
+			}
+			switch e.Kind() {
+			case reflect.Pointer, reflect.Map, reflect.Slice:
+				if e.IsNil() {
+					s.ill = true
+				}
+			}
+			s.value(e)
 		}
 	case reflect.Pointer:
 		if v.IsNil() {
@@ -1625,8 +1636,15 @@ func (r *c11Runner) answer(root any, scripts []c11Script, nilish bool) string {
 	if nilish {
 		nl = 1
 	}
-	fmt.Fprintf(&b, "ok equal=%s shared=[%s] indep=%s culprit=%s opaque=[%s] dag=%d nodes=%d nilish=%d",
-		cp.equal, strings.Join(cp.shared, ","), cp.indep, cp.culprit, strings.Join(opaque, ","), dag, scan.nodes, nl)
+	wt := 1
+	if scan.ill {
+		wt = 0
+		st.Inc("values.not_welltyped")
+	} else {
+		st.Inc("values.welltyped")
+	}
+	fmt.Fprintf(&b, "ok equal=%s shared=[%s] indep=%s culprit=%s opaque=[%s] dag=%d nodes=%d nilish=%d welltyped=%d",
+		cp.equal, strings.Join(cp.shared, ","), cp.indep, cp.culprit, strings.Join(opaque, ","), dag, scan.nodes, nl, wt)
 	b.WriteString(walks.String())
 	b.WriteString(" | sexp=")
 	b.WriteString(sexp)
